@@ -98,7 +98,7 @@ def judge(ctx, status: str) -> list[dict]:
                           what="param_value_differs", location=location, expr_kind=ekind, falsy=want in ("0", "", "false", "0.0"),
                           # a link-supplied path value is inserted into the URL without percent-encoding: characters that
                           # delimit URL parts cut it short (known finding when that is the case)
-                          **({"url_delimiter_in_path_value": True} if location == "path" and any(ch in str(want) for ch in "?#%") else {}))
+                          **({"url_delimiter_in_path_value": True} if location == "path" and (any(ch in str(want) for ch in "?#%/\\") or str(want) in (".", "..")) else {}))
                 else:
                     stats["undefined_params"] += 1
                     decl_t = next((q.schema.get("type") for q in target.params if q.name == name and q.location == location), None)
